@@ -347,6 +347,31 @@ Section Gradient.
     end.
 End Gradient.
 
+(* _estimate_merged_gradient (gradient.merge_realizations): ONE least-squares solve over the rows (realization r,
+   perturbation p) of every realization with a non-zero normalised weight whose function difference is not NaN,
+   realization-major.  A row carries the weight of its realization, its variable difference and its function
+   difference; [msolve] stands for the weighting of the rows and the solve (the current code multiplies the function
+   differences by the weight and calls _invert_linear_equations).  The mean estimator returns the result as it is;
+   the stddev estimator rejects merge_realizations at construction. *)
+Definition mrow := (Q * vec * Q)%type.
+Fixpoint merged_rows (x : vec) (fs : list oQ) (pXs : list (list vec)) (pfs : list (list oQ)) (w : list Q) : list mrow :=
+  match fs, pXs, pfs, w with
+  | f :: fs', pX :: pXs', pf :: pfs', wr :: w' =>
+      (if Qeqb wr 0 then []
+       else let sys := realization_system x f pX pf in
+            map (fun ab : vec * Q => (wr, fst ab, snd ab)) (combine (fst sys) (snd sys)))
+      ++ merged_rows x fs' pXs' pfs' w'
+  | _, _, _, _ => []
+  end.
+Definition merged_gradient_of (msolve : list mrow -> vec) (x : vec) (fs : list oQ) (pXs : list (list vec))
+           (pfs : list (list oQ)) (wrow : list Q) (failed : list bool) : gres :=
+  match normalize (zero_failed failed wrow) with
+  | None => GDivZero
+  | Some w => GMean (msolve (merged_rows x fs pXs pfs w))
+  end.
+(* rows that agree up to == on the weight *)
+Definition mrow_eq (a b : mrow) : Prop := fst (fst a) == fst (fst b) /\ snd (fst a) = snd (fst b) /\ snd a = snd b.
+
 (* the ensemble with the failed realizations and, per realization, the failed perturbations removed *)
 Definition keep_of (failed : list bool) : list bool := map negb failed.
 Definition reduce_pX (pX : list vec) (pf : list oQ) : list vec :=
